@@ -113,7 +113,8 @@ class ConnExec:
                 if mode == "read":
                     body = await r.read()
                     mm = re.match(rb"B(\d+);", body)
-                    res["bm"] = int(mm.group(1)) if mm else -1
+                    # a body that was read to its end but does not carry the marker of its head is a mix-up / loss
+                    res["bm"] = int(mm.group(1)) if mm else 0
                     res["how"] = "connclose" if conn_close else "full"
                     res["rec"] = False
                 elif mode == "unread":
@@ -167,9 +168,15 @@ class ConnExec:
         return m
 
     def response_bytes(self, m: int, *, status: int = 200, extra: Optional[List[tuple]] = None,
-                       chunked: bool = False, version: str = "HTTP/1.1", body_len: int = 6) -> tuple:
+                       chunked: bool = False, version: str = "HTTP/1.1", body_len: int = 6,
+                       gzip_body: bool = False, content_length: bool = True) -> tuple:
         body = (f"B{m};".encode() + b"x" * body_len)[:max(body_len, len(f"B{m};"))]
-        raw = http_response(status, [("X-Mark", str(m))] + list(extra or []), body, chunked=chunked, version=version)
+        hdrs = [("X-Mark", str(m))] + list(extra or [])
+        if gzip_body:
+            import gzip as _gz
+            body = _gz.compress(body, mtime=0)
+            hdrs.append(("Content-Encoding", "gzip"))
+        raw = http_response(status, hdrs, body, chunked=chunked, version=version, content_length=content_length)
         cut = raw.index(b"\r\n\r\n") + 4
         return raw[:cut], raw[cut:]
 
@@ -294,13 +301,17 @@ def random_exec(ctx: Ctx, loop: steploop.StepLoop, rng: Any) -> dict:
                     "on_connection_create_end", "on_connection_reuseconn", "on_request_start"):
             getattr(tc, sig).append(_cb)
         skw["trace_configs"] = [tc]
+    small_buf = rng.random() < 0.4
+    if small_buf:
+        skw["read_bufsize"] = rng.choice([16, 64])
     x = ConnExec(loop, limit=limit, session_kw=skw)
     hosts = ["http://a/", "http://a/", "http://a:81/", "https://a/", "http://b/"]
     use_proxy = rng.random() < 0.3
+    vary_ssl = rng.random() < 0.3
     proxy_kws = [{}, {"proxy": "http://proxy:3128"}, {"proxy": "http://proxy:3128", "proxy_headers": {"X-Tenant": "one"}},
                  {"proxy": "http://proxy:3128", "proxy_headers": {"X-Tenant": "two"}},
                  {"proxy": "http://alice:pw@proxy:3128"}, {"proxy": "http://bob:pw@proxy:3128"},
-                 {"proxy": "http://proxy2:3128"}]
+                 {"proxy": "http://proxy2:3128"}, {"proxy": "https://sproxy:3129"}, {"proxy": "https://sproxy:3129"}]
     nreq = rng.randint(2, 6)
     j = 0
     inflight: List[int] = []
@@ -324,6 +335,8 @@ def random_exec(ctx: Ctx, loop: steploop.StepLoop, rng: Any) -> dict:
             j += 1
             mode = rng.choice(["read", "read", "read", "unread", "close"])
             rkw: Dict[str, Any] = dict(rng.choice(proxy_kws)) if use_proxy else {}
+            if vary_ssl and rng.random() < 0.5:
+                rkw["ssl"] = False       # "do not verify": must never share a connection with a verifying request
             url = (rng.choice(["http://a/", "http://a/", "http://b/"]) if rkw.get("proxy") else rng.choice(hosts)) + f"p{j}"
             pooled_now = [c for c in x.kit.conns if c.open and c.owner is None]
             if traced and pooled_now and rng.random() < 0.5:
@@ -367,15 +380,25 @@ def random_exec(ctx: Ctx, loop: steploop.StepLoop, rng: Any) -> dict:
                 continue
             m = x.new_marker()
             style = rng.choice(["ok", "ok", "ok", "chunked", "close", "http10", "surplus", "surplusfrag",
-                                "truncate", "split", "interim", "upgrade", "peerclose-mid"])
+                                "truncate", "split", "interim", "upgrade", "peerclose-mid",
+                                "eofbody", "eofbody10", "gzipbig", "gzipbig-surplus"]
+                               + (["gzipbig-surplus"] * 3 if small_buf else []))
             extra: List[tuple] = []
             ver = "HTTP/1.1"
             if style == "close":
                 extra.append(("Connection", "close"))
             if style == "http10":
                 ver = "HTTP/1.0"
+            if style in ("eofbody", "eofbody10"):
+                # no Content-Length / Transfer-Encoding: the body ends when the peer closes, although the
+                # peer claims keep-alive; head and body arrive in different reads
+                extra.append(("Connection", "keep-alive"))
+                if style == "eofbody10":
+                    ver = "HTTP/1.0"
             h, b = x.response_bytes(m, extra=extra, chunked=(style == "chunked"), version=ver,
-                                    body_len=rng.choice([6, 6, 40]))
+                                    body_len=rng.choice([6, 6, 40]) if not style.startswith("gzipbig") else 600,
+                                    gzip_body=style.startswith("gzipbig"),
+                                    content_length=style not in ("eofbody", "eofbody10"))
             if style == "interim":
                 x.feed(c, b"HTTP/1.1 100 Continue\r\n\r\n", m, "head", False)
             if style == "upgrade":
@@ -386,6 +409,30 @@ def random_exec(ctx: Ctx, loop: steploop.StepLoop, rng: Any) -> dict:
                 x.feed(c, h[:cut], m, "head", False)
                 x.feed(c, h[cut:], m, "head", False)
                 x.feed(c, b, m, "body", False)
+            elif style in ("eofbody", "eofbody10"):
+                x.feed(c, h, m, "head", False)
+                if rng.random() < 0.5 and j < nreq:
+                    # another request is issued before the rest of the close-delimited body arrives
+                    j += 1
+                    x.request(j, "http://a/" + f"p{j}", "read")
+                    inflight.append(j)
+                if x.kit.conns[c].open:
+                    x.feed(c, b, m, "body", False)
+                x.peer_close(c)
+            elif style == "gzipbig-surplus":
+                # the end of a compressed body (inflating pauses at the small read buffer) and a complete
+                # surplus response arrive in the same read
+                sm = x.new_marker()
+                sh, sb = x.response_bytes(sm)
+                ep = x.owner_epoch(x.kit.conns[c])
+                cut = rng.choice([0, 0, len(h), len(h) + len(b) // 2])
+                if cut:
+                    x.feed(c, (h + b)[:cut], m, "head", False)
+                if x.kit.conns[c].open:
+                    x.rec("feed", c=c, ep=x.owner_epoch(x.kit.conns[c]), m=m, part="body" if cut else "whole", surplus=False)
+                    x.rec("feed", c=c, ep=x.owner_epoch(x.kit.conns[c]), m=sm, part="whole", surplus=True)
+                    x.kit.conns[c].feed((h + b)[cut:] + sh + sb)
+                    x.sync()
             elif style == "truncate":
                 x.feed(c, h + b[:-2], m, "head", False)
                 x.peer_close(c)
